@@ -211,7 +211,102 @@ def _grp_register_atomic():
     return "false"
 
 
+# ---- C08 / C04 --------------------------------------------------------------------------------
+
+
+def _calls(f: ast.AST, dotted: str):
+    return [n for n in ast.walk(f) if isinstance(n, ast.Call) and unparse(n.func) == dotted]
+
+
+@fact("msg_header_format", "string", '"?"')
+def _msg_header_format():
+    """struct format of the frame header in Message.to_io and from_io (must agree)"""
+    a = find("gateway_base.py", "Message.to_io")
+    b = find("gateway_base.py", "Message.from_io")
+    pa = [c.args[0].value for c in _calls(a, "struct.pack")]
+    pb = [c.args[0].value for c in _calls(b, "struct.unpack")]
+    if len(pa) != 1 or pa != pb:
+        raise ValueError("header formats differ / not found")
+    reads = [c.args[0].value for c in _calls(b, "io.read") if isinstance(c.args[0], ast.Constant)]
+    import struct as _s
+
+    if reads != [_s.calcsize(pa[0])]:
+        raise ValueError("header read size does not match the format")
+    return coq_string(pa[0])
+
+
+@fact("to_io_single_write", "bool", "false")
+def _to_io_single_write():
+    """Message.to_io performs exactly one io.write call, with header + payload, on every path"""
+    f = find("gateway_base.py", "Message.to_io")
+    ws = _calls(f, "io.write")
+    if len(ws) != 1:
+        return "false"
+    if any(isinstance(n, (ast.If, ast.For, ast.While, ast.Try)) for n in ast.walk(f)):
+        return "false"
+    arg = unparse(ws[0].args[0])
+    return "true" if arg in ("header + self.data",) else "false"
+
+
+@fact("popen_write_shape", "wshape", "WOther")
+def _popen_write_shape():
+    f = find("gateway_base.py", "Popen2IO.write")
+    ws = _calls(f, "self._write")
+    if len(ws) == 1 and unparse(ws[0].args[0]) == "data" and not any(isinstance(n, (ast.For, ast.While)) for n in ast.walk(f)):
+        init = unparse(find("gateway_base.py", "Popen2IO.__init__"))
+        if "self._write = getattr(outfile, 'buffer', outfile).write" in init:
+            return "WFileWrite"
+    return "WOther"
+
+
+@fact("socket_write_shape", "wshape", "WOther")
+def _socket_write_shape():
+    f = find("gateway_socket.py", "SocketIO.write")
+    ws = _calls(f, "self.sock.sendall")
+    if len(ws) != 1 or unparse(ws[0].args[0]) != "data":
+        return "WOther"
+    for w in [n for n in ast.walk(f) if isinstance(n, ast.With)]:
+        if "lock" in unparse(w.items[0].context_expr).lower() and "self.sock.sendall" in unparse(w):
+            return "WSendallLocked"
+    return "WSendallUnlocked"
+
+
+def _read_loop_ok(fn, qual, recv):
+    f = find(fn, qual)
+    loops = [n for n in ast.walk(f) if isinstance(n, ast.While)]
+    if len(loops) != 1:
+        return False
+    t = unparse(loops[0].test)
+    if t not in ("numbytes > len(buf)", "len(buf) < numbytes"):
+        return False
+    body = unparse(loops[0])
+    return (recv + "(numbytes - len(buf))") in body and "raise EOFError" in body and "buf += " in body
+
+
+@fact("read_loops_exact", "bool", "false")
+def _read_loops_exact():
+    """Popen2IO.read and SocketIO.read loop until exactly numbytes arrived and raise EOFError on an empty read"""
+    ok = _read_loop_ok("gateway_base.py", "Popen2IO.read", "self._read") and _read_loop_ok("gateway_socket.py", "SocketIO.read", "self.sock.recv")
+    return "true" if ok else "false"
+
+
+@fact("from_io_exact", "bool", "false")
+def _from_io_exact():
+    """Message.from_io: header read of fixed size, then io.read(payload) with the decoded length, nothing delivered otherwise"""
+    f = find("gateway_base.py", "Message.from_io")
+    src = unparse(f)
+    ok = "msgtype, channel, payload = struct.unpack" in src and "return Message(msgtype, channel, io.read(payload))" in src
+    return "true" if ok else "false"
+
+
 DIGESTS = [
+    ("gateway_base.py", "Message.to_io"),
+    ("gateway_base.py", "Message.from_io"),
+    ("gateway_base.py", "Popen2IO.read"),
+    ("gateway_base.py", "Popen2IO.write"),
+    ("gateway_socket.py", "SocketIO.read"),
+    ("gateway_socket.py", "SocketIO.write"),
+    ("gateway_base.py", "BaseGateway._send"),
     ("xspec.py", "XSpec.__init__"),
     ("multi.py", "Group.allocate_id"),
     ("multi.py", "Group._register"),
